@@ -205,6 +205,14 @@ def c_cfg(case):
             % (L.lst(list(g.nodes()), L.z), adj, L.q(case['period']), L.q(case['coupling']), L.q(case['maxtime'])))
 
 
+def fl(x):
+    """a binary64 value as a Coq primitive float literal (exact)"""
+    x = float(x)
+    if x != x or x in (float('inf'), float('-inf')):
+        raise ValueError('not finite')
+    return '(%s)%%float' % x.hex()
+
+
 def to_coq(case, obs):
     if obs.get('skipped'):
         return None
@@ -215,20 +223,22 @@ def to_coq(case, obs):
             if p['id'] is None or not (0 <= p['id'] < 5000):
                 ok = False
                 continue
-            snaps.append('(%s, %s)' % (L.nat(p['id']), L.opt(p['pending'], L.q)))
+            snaps.append('(%s, %s)' % (L.nat(p['id']), L.opt(p['pending'], fl)))
     try:
-        oracle = L.lst(['(%s, %s)' % (KIND[c[0]], L.q(oracle_value(case, c))) for c in obs['calls']])
+        answers = L.lst([fl(oracle_value(case, c)) for c in obs['calls']])
+        args = L.lst([fl(c[1]) for c in obs['calls']])
     except (ValueError, OverflowError, ZeroDivisionError):
         return None
-    args = L.lst(['(%s, %s)' % (KIND[c[0]], L.q(c[1])) for c in obs['calls']])
+    kinds = ''.join(c[0] for c in obs['calls'])
+    kinds = L.lst([L.string(kinds[i:i + 1000]) for i in range(0, len(kinds), 1000)])
     fired = [tp for tp in obs['taps'] if tp[1] == obs['fired_name']]
-    return ('{| c_cfg := %s; c_sync := %s; c_oracle := %s; c_orders := %s; o_args := %s; o_snaps := %s; o_taps := %s; '
-            'o_ftimes := %s; o_fnodes := %s; o_phases := %s; o_time := %s; o_events := %s; o_ok := %s |}') % (
-        c_cfg(case), L.b(case['dynamics'] == 'synchronous'), oracle,
-        L.lst([L.lst(o, L.z) for o in obs['orders']]), args, L.lst(snaps),
-        L.lst(['(%s, %s)' % (L.q(tp[0]), L.z(tp[2])) for tp in fired]),
-        L.lst(obs['firing_times'] or [], L.q), L.lst(obs['firing_nodes'] or [], L.z), L.lst(obs['phases'] or [], L.q),
-        L.q(obs['time'] if ok else 0), L.nat(obs['events'] if ok else 0), L.b(ok))
+    return ('{| f_cfg := %s; f_sync := %s; f_kinds := %s; f_answers := %s; f_args := %s; f_orders := %s; f_snaps := %s; '
+            'f_taps := %s; f_ftimes := %s; f_fnodes := %s; f_phases := %s; f_time := %s; f_events := %s; f_ok := %s |}') % (
+        c_cfg(case), L.b(case['dynamics'] == 'synchronous'), kinds, answers, args,
+        L.lst([L.lst(o, L.z) for o in obs['orders']]), L.lst(snaps),
+        L.lst(['(%s, %s)' % (fl(tp[0]), L.z(tp[2])) for tp in fired]),
+        L.lst(obs['firing_times'] or [], fl), L.lst(obs['firing_nodes'] or [], L.z), L.lst(obs['phases'] or [], fl),
+        fl(obs['time'] if ok else 0), L.nat(obs['events'] if ok else 0), L.b(ok))
 
 
 # ---------------------------------------------------------------- D: the property on the implementation's observables
@@ -362,8 +372,8 @@ def gen_case(rnd, tier='quick'):
 
 class H(Harness):
     ID = 'C20'
-    TIE_IMPORT = 'From EpyV Require Import Model.Kernel Model.Pulse Tie.C20.\nOpen Scope Q_scope.'
-    CHECK_FN = 'EpyV.Tie.C20.check_case'
+    TIE_IMPORT = 'From Coq Require Import Floats.\nFrom EpyV Require Import Model.Kernel Model.Pulse Tie.C20.\nOpen Scope Q_scope.'
+    CHECK_FN = 'EpyV.Tie.C20.check_fcase'
     QUICK_N = 240
     THOROUGH_N = 2400
     CASE_TIMEOUT = 30
